@@ -546,14 +546,19 @@ class Context:
             jobs.append((fn, len(part)))
         procs = []
         for fn, n in jobs:
-            procs.append((fn, n, subprocess.Popen(
+            # output goes to a file, not a pipe: a pipe fills up (64 KB) and
+            # dead-locks when >= NCPU processes are waiting to be read
+            of = open(fn + ".out", "w")
+            procs.append((fn, n, of, subprocess.Popen(
                 ["timeout", str(timeout), "coqc", "-w", "-notation-overridden,-inexact-float,-deprecated",
                  "-Q", COQDIR, "Celer", fn],
-                cwd=self.work, stdout=subprocess.PIPE, stderr=subprocess.STDOUT, text=True)))
-            while sum(1 for p in procs if p[2].poll() is None) >= NCPU:
+                cwd=self.work, stdout=of, stderr=subprocess.STDOUT, text=True)))
+            while sum(1 for p in procs if p[3].poll() is None) >= NCPU:
                 time.sleep(0.05)
-        for fn, n, p in procs:
-            out, _ = p.communicate()
+        for fn, n, of, p in procs:
+            p.wait()
+            of.close()
+            out = open(fn + ".out", errors="replace").read()
             if p.returncode != 0:
                 raise RuntimeError("coqc failed on %s:\n%s" % (fn, out[-2000:]))
             vals = split_eval_outputs(out)
